@@ -22,6 +22,8 @@ pub struct Function {
     pub(crate) params: Params,
     pub(crate) body: Body,
     pub(crate) return_type: Type,
+    #[cfg(feature = "verif")]
+    pub(crate) helper: bool,
 }
 
 impl Function {
@@ -35,6 +37,8 @@ impl Function {
             params,
             body: Body::Native(body),
             return_type,
+            #[cfg(feature = "verif")]
+            helper: false,
         }
     }
 
@@ -65,6 +69,8 @@ impl Function {
                 .into(),
             ),
             return_type: fn_type.return_type(),
+            #[cfg(feature = "verif")]
+            helper: crate::verif::in_helper_scope(),
         })
     }
 
@@ -81,6 +87,10 @@ impl Function {
     }
 
     pub(crate) fn exec(&self, interpreter: &mut Interpreter) -> Result<Variable, ExecError> {
+        #[cfg(feature = "verif")]
+        if let Some(result) = crate::verif::intercept_function(self, interpreter) {
+            return result;
+        }
         let body = match &self.body {
             Body::Lang(body) => body,
             Body::Native(body) => return (body)(interpreter),
@@ -98,6 +108,8 @@ impl Function {
         self: &Arc<Self>,
         args: &[Variable],
     ) -> Result<Variable, ExecError> {
+        #[cfg(feature = "verif")]
+        crate::verif::observe_args(self, args);
         let mut interpreter = Interpreter::without_stdlib();
         if let Some(ident) = &self.ident {
             interpreter.insert(ident.clone(), self.clone().into())
